@@ -46,7 +46,7 @@ def check_instance_of_generic_class_and_get_type_vars(instance: Any) -> Dict[Typ
     if not hasattr(instance, '__orig_class__'):
         return type_vars
 
-    type_variables = get_type_arguments(type(instance).__orig_bases__[0])
+    type_variables = type(instance).__parameters__  # the type parameters of the class, whatever base it has them from
     actual_types = get_type_arguments(instance.__orig_class__)
 
     for i, type_var in enumerate(type_variables):
@@ -125,7 +125,9 @@ def is_instance_of_generic_class(instance: Any) -> bool:
         >>> is_instance_of_generic_class(b2)
         True
     """
-    return Generic in instance.__class__.__bases__
+    cls = instance.__class__
+    # a class is generic when it still has type parameters: directly (Generic[T], List[T]) or through a generic base (class Child(Base[T]))
+    return Generic in cls.__bases__ or bool(getattr(cls, '__parameters__', ()))
 
 
 def _remove_comments_and_spaces_from_src_line(line: str) -> str:
